@@ -6,7 +6,9 @@ Translated:
                             uses (inlined down to primitive runtime observations), `_cyclic_relationships`, `exclude_specials`
   enumerations.py           ObjectKind members/values (ties `inspect_{kind}` dispatch names)
   agents/inspector.py       for each ObjectKind value the `inspect_<value>` handler and the label set it passes; `_kind_map`
-  agents/visitor.py         `builtin_decorators`, `stdlib_decorators`
+  agents/visitor.py         `builtin_decorators`, `stdlib_decorators`; visit_classdef: the bases are the written ones, in order
+  agents/inspector.py       inspect_class: which attribute the bases are read from, whether `object` is skipped, the path format
+  mixins.py                 ObjectAliasMixin.is_wildcard_exposed as a boolean function of seven atoms
 """
 from __future__ import annotations
 
@@ -172,6 +174,81 @@ def _class(tree, name) -> ast.ClassDef:
     raise TranslatorError(f"class {name} not found")
 
 
+EXPOSED_ATOMS = {"self.runtime": "runtime", "self.parent": "true", "self.parent.is_module": "true",
+                 "self.parent.exports is not None": "has_all", "self.name in self.parent.exports": "in_all",
+                 "self.name.startswith('_')": "private", "self.is_alias": "is_alias", "self.is_module": "is_module",
+                 "self.is_imported": "is_imported"}
+
+
+def _exposed_bx(node) -> str:
+    text = ast.unparse(node)
+    if text in EXPOSED_ATOMS:
+        return EXPOSED_ATOMS[text]
+    if isinstance(node, ast.BoolOp):
+        op = " || " if isinstance(node.op, ast.Or) else " && "
+        return "(" + op.join(_exposed_bx(v) for v in node.values) + ")"
+    if isinstance(node, ast.UnaryOp) and isinstance(node.op, ast.Not):
+        return f"negb {_exposed_bx(node.operand)}"
+    if isinstance(node, ast.Constant) and node.value in (True, False):
+        return "true" if node.value else "false"
+    raise TranslatorError(f"is_wildcard_exposed: expression outside the whitelist: {text}")
+
+
+def wildcard_exposed(src: Path) -> str:
+    """ObjectAliasMixin.is_wildcard_exposed: `if C: return E` ... `return E` -> nested if-then-else over the atoms
+    (the member is a member of a module: self.parent and self.parent.is_module are true)."""
+    cls = _class(ast.parse((src / "mixins.py").read_text()), "ObjectAliasMixin")
+    fn = [n for n in cls.body if isinstance(n, ast.FunctionDef) and n.name == "is_wildcard_exposed"]
+    if len(fn) != 1 or [ast.unparse(d) for d in fn[0].decorator_list] != ["property"]:
+        raise TranslatorError("ObjectAliasMixin.is_wildcard_exposed property not found")
+    body = _strip_doc(fn[0].body)
+    if not body or not isinstance(body[-1], ast.Return) or body[-1].value is None:
+        raise TranslatorError("is_wildcard_exposed: no final return")
+    out = _exposed_bx(body[-1].value)
+    for st in reversed(body[:-1]):
+        if not (isinstance(st, ast.If) and not st.orelse and len(st.body) == 1 and isinstance(st.body[0], ast.Return) and st.body[0].value is not None):
+            raise TranslatorError(f"is_wildcard_exposed: unexpected statement {ast.unparse(st)}")
+        out = f"if {_exposed_bx(st.test)} then {_exposed_bx(st.body[0].value)} else\n    {out}"
+    return out
+
+
+def class_bases(ins_meths, vis_tree) -> dict:
+    """Inspector.inspect_class: `bases = []; for base in node.obj.<attr>: [if base is object: continue]; bases.append(f"{base.__module__}.{base.__qualname__}")`;
+    Visitor.visit_classdef: `bases = [safe_get_base_class(base, parent=self.current) for base in node.bases]`."""
+    m = ins_meths.get("inspect_class")
+    if m is None:
+        raise TranslatorError("Inspector.inspect_class not found")
+    loops = [n for n in m.body if isinstance(n, ast.For) and ast.unparse(n.target) == "base"]
+    assigns = [ast.unparse(n) for n in m.body if isinstance(n, ast.Assign) and ast.unparse(n.targets[0]) == "bases"]
+    if len(loops) != 1 or assigns != ["bases = []"] or loops[0].orelse:
+        raise TranslatorError("inspect_class: the bases loop changed shape")
+    loop = loops[0]
+    it = loop.iter
+    if not (isinstance(it, ast.Attribute) and ast.unparse(it.value) == "node.obj"):
+        raise TranslatorError(f"inspect_class: bases are read from {ast.unparse(it)}, not from an attribute of node.obj")
+    if it.attr != "__bases__":
+        raise TranslatorError(f"inspect_class: bases are read from node.obj.{it.attr}; the model knows __bases__ only")
+    stmts = [ast.unparse(x) for x in loop.body]
+    fmt = "bases.append(f'{base.__module__}.{base.__qualname__}')"
+    if stmts == ["if base is object:\n    continue", fmt]:
+        skips = True
+    elif stmts == [fmt]:
+        skips = False
+    else:
+        raise TranslatorError(f"inspect_class: unexpected loop body {stmts}")
+    kw = [k for n in ast.walk(m) if isinstance(n, ast.Call) and ast.unparse(n.func) == "Class" for k in n.keywords if k.arg == "bases"]
+    if len(kw) != 1 or ast.unparse(kw[0].value) != "bases":
+        raise TranslatorError("inspect_class: Class(... bases=bases ...) changed")
+    vcls = _class(vis_tree, "Visitor")
+    vm = [n for n in vcls.body if isinstance(n, ast.FunctionDef) and n.name == "visit_classdef"]
+    if len(vm) != 1:
+        raise TranslatorError("Visitor.visit_classdef not found")
+    vb = [ast.unparse(n) for n in vm[0].body if isinstance(n, ast.Assign) and ast.unparse(n.targets[0]) == "bases"]
+    if vb != ["bases = [safe_get_base_class(base, parent=self.current) for base in node.bases]"]:
+        raise TranslatorError(f"visit_classdef: the bases are no longer the written ones in order: {vb}")
+    return {"skips_object": skips}
+
+
 def tables() -> dict:
     src = REPO / "src/_griffe"
     rt = ast.parse((src / "agents/nodes/runtime.py").read_text())
@@ -253,7 +330,7 @@ def tables() -> dict:
     builtin = [(_str(k), [_str(v)]) for k, v in zip(bd.keys, bd.values)]
     stdlib = [(_str(k), sorted(_str(e) for e in v.elts)) for k, v in zip(sd.keys, sd.values)]
     return {"rungs": rungs, "default": default, "cyclic": cyclic, "exclude": exclude, "values": values, "handlers": handlers,
-            "kind_map": kind_map, "builtin": builtin, "stdlib": stdlib}
+            "kind_map": kind_map, "builtin": builtin, "stdlib": stdlib, "bases": class_bases(meths, vis), "exposed": wildcard_exposed(src)}
 
 
 def translate(ctx=None) -> Path:
@@ -285,7 +362,12 @@ def translate(ctx=None) -> Path:
             "(* runtime._cyclic_relationships, ObjectNode.exclude_specials *)",
             "Definition cyclic_relationships : list (string * string) :=",
             "  [" + "; ".join(f'("{a}", "{b}")' for a, b in t["cyclic"]) + "].",
-            f"Definition exclude_specials : list string := {_coq_strs(t['exclude'])}.", ""]
+            f"Definition exclude_specials : list string := {_coq_strs(t['exclude'])}.", "",
+            "(* Inspector.inspect_class reads cls.__bases__ (anything else is refused by the translator); does it skip `object`? *)",
+            f"Definition inspector_skips_object : bool := {'true' if t['bases']['skips_object'] else 'false'}.", "",
+            "(* ObjectAliasMixin.is_wildcard_exposed for a member of a module *)",
+            "Definition wildcard_exposed_tbl (runtime has_all in_all private is_alias is_module is_imported : bool) : bool :=",
+            "  " + t["exposed"] + ".", ""]
     p = VERIF / "coq/Gen/C17_tables.v"
     text = "\n".join(out)
     if not p.exists() or p.read_text() != text:
